@@ -33,8 +33,9 @@ import threading
 from harness import core
 
 PREFIX = 'S__'          # one sector 'S' in one country: full names are S__<local>
-CASE_LIMITS_S = [20.0, 5.0, 2.0, 0.5]   # wall-clock limit for one execution of the code under test; it shrinks
+CASE_LIMITS_S = [20.0, 5.0, 1.0, 0.25]  # wall-clock limit for one execution of the code under test; it shrinks
 _hangs = [0]                            # with every hang seen so that a tree that loops cannot stall the check
+MAX_HANGS = 25                          # more than this: the check gives up (exit 2), C10 says nothing about loops
 
 
 # --------------------------------------------------------------------------------------
@@ -362,15 +363,21 @@ def _limited(fn, seconds):
     if threading.current_thread() is not threading.main_thread():
         return fn()
 
+    fired = [False]
+
     def handler(signum, frame):
+        fired[0] = True
         raise _Hang()
     old = signal.signal(signal.SIGALRM, handler)
     signal.setitimer(signal.ITIMER_REAL, seconds, 0.05)
     try:
-        return fn()
+        out = fn()
     finally:
         signal.setitimer(signal.ITIMER_REAL, 0)
         signal.signal(signal.SIGALRM, old)
+    if fired[0]:
+        raise _Hang()       # the injected exception was swallowed: what came back is not a run of the code
+    return out
 
 
 def execute(case):
@@ -385,6 +392,9 @@ def execute(case):
         return _limited(go, limit)
     except _Hang:
         _hangs[0] += 1
+        if _hangs[0] > MAX_HANGS:
+            raise core.MachineryError('the code under test did not come back on %d inputs (limit %g s each); '
+                                      'last one: %s' % (_hangs[0], limit, core.canonical(case)[:600]))
         pe = {'ev': 'Parse', 'cfg': case['cfg'], 'api': case['api'], 'dress': case['dress'], 'ok': False,
               'exc': 'Hang', 'classes': [], 'maxtime': 0}
         return [pe, _no_solve('Hang', case['dress'])], '(no answer within %g s)' % limit
